@@ -434,7 +434,7 @@ def run_assoc(i1, i2, i3):
 # ---------------------------------------------------------------------------
 
 ELEMS = ['a', 'b', 'c', 'd', 'd2', 'e', 'f', 'g', 'n1', 'n2', 'a1', 'd1']
-NUMS = ['i:2', 'i:-3', 'i:10', 'D:0.5', 'F:2/3']
+NUMS = ['i:2', 'i:-3', 'i:10', 'D:0.5', 'F:2/3', 'i:-1', 'D:-1.0', 'i:1']
 UEL = ['u:' + s for s in UNITS]
 
 
@@ -563,7 +563,7 @@ def run(tier, seed):
         [[list(x), list(y)] for x in ualpha[::2] for y in ualpha[1::2]]
     total.merge(pmap(part_pairs, [ushorts[i::16] for i in range(16)],
                      (ushorts,)))
-    ks = NUMS + ['i:1', 'i:-1']
+    ks = list(dict.fromkeys(NUMS + ['i:1', 'i:-1']))
     uterms = shorts[:len(sub)] + shorts[len(sub)::7]
     total.merge(pmap(part_unary, [uterms[i::16] for i in range(16)], (ks,)))
     singles = [[list(x)] for x in sub]
